@@ -65,6 +65,32 @@ def gen_multi_target_case(rng, max_depth):
     return {"schemas": schemas, "passes": [p1, p2]}
 
 
+def gen_duplicate_then_mutate_case(rng, max_depth):
+    """duplicate_object followed by transformations aimed at ONE of the two objects (the copy or the original): the
+    other one must stay as it was, at every depth"""
+    g = irgen.IRGen(rng, max_depth=max_depth, features={"resolving": True})
+    schemas = g.schemas()
+    cands = [(s, o) for s in schemas for o in s["objects"] if o["type"].get("k") == "struct" and o["type"].get("fields")]
+    if not cands:
+        return gen_case(rng, max_depth, 3)
+    s, o = rng.choice(cands)
+    pkg, name = s["pkg"], o["name"]
+    target = rng.choice(["Copy", name])
+    f = rng.choice(o["type"]["fields"])["name"]
+    nested = [x for x in o["type"]["fields"] if x["type"].get("k") in ("struct", "array", "map", "disj", "inter")]
+    passes = [{"p": "duplicate_object", "pkg": pkg, "obj": name, "topkg": pkg, "to": "Copy"}]
+    menu = [{"p": "fields_set_required", "refs": [[pkg, target, f]]}, {"p": "fields_set_not_required", "refs": [[pkg, target, f]]},
+            {"p": "omit_fields", "refs": [[pkg, target, f]]},
+            {"p": "retype_field", "pkg": pkg, "obj": target, "fld": f, "as": {"k": "scalar", "sk": "string"}},
+            {"p": "fields_set_default", "defs": [{"ref": [pkg, target, f], "val": {"t": "str", "v": "dflt"}}]},
+            {"p": "add_fields", "pkg": pkg, "obj": target, "fields": [{"name": "added", "type": {"k": "scalar", "sk": "bool"}, "req": True}]},
+            {"p": "hint_object", "pkg": pkg, "obj": target, "hints": {"h1": {"t": "str", "v": "v"}}},
+            {"p": "prefix_object_names", "str": "Pre"}, {"p": "append_comment_objects", "str": "generated"}]
+    for _ in range(rng.randint(1, 3)):
+        passes.append(rng.choice(menu))
+    return {"schemas": schemas, "passes": passes}
+
+
 def classify(job, k):
     """describe the culprit pass (index k) of a failing case for the known-findings matcher"""
     p = job["passes"][k]
@@ -98,6 +124,8 @@ def run(ctx, verdict, replay=None, model_ok=True):
             jobs.append(gen_case(rng, 6 if thorough else 4, 6 if thorough else 4))
         for _ in range(n // 15):
             jobs.append(gen_multi_target_case(rng, 4))
+        for _ in range(n // 10):
+            jobs.append(gen_duplicate_then_mutate_case(rng, 4))
     binp = core.build_harness(ctx)
     results = passlib.run_jobs(binp, jobs)
     ctx.log("implementation ran: %d cases" % len(results))
